@@ -1,2 +1,760 @@
-// Package c16: (not built yet)
+// Package c16: definition migration yields valid, equivalent, stable flows; any other input is
+// rejected with an error, never a panic.
 package c16
+
+import (
+	"bytes"
+	"encoding/json"
+	"fmt"
+	"regexp"
+	"sort"
+	"strings"
+	"time"
+
+	"github.com/Masterminds/semver"
+	"github.com/nyaruka/gocommon/i18n"
+	"github.com/nyaruka/goflow/envs"
+	"github.com/nyaruka/goflow/excellent"
+	"github.com/nyaruka/goflow/excellent/types"
+	"github.com/nyaruka/goflow/flows"
+	"github.com/nyaruka/goflow/flows/definition"
+	"github.com/nyaruka/goflow/flows/definition/migrations"
+	"verif/mc"
+	"verif/world"
+)
+
+type problem struct {
+	Key  string
+	What string
+}
+
+// ---- helpers -------------------------------------------------------------------------------------
+
+func mustJSON(v any) []byte {
+	b, err := json.Marshal(v)
+	if err != nil {
+		panic(err)
+	}
+	return b
+}
+
+var uuidRe = regexp.MustCompile(`[0-9a-f]{8}-[0-9a-f]{4}-[0-9a-f]{4}-[0-9a-f]{4}-[0-9a-f]{12}`)
+var quotedRe = regexp.MustCompile(`'[^']*'|"[^"]*"`)
+var digitsRe = regexp.MustCompile(`\d+`)
+
+// errClass normalises an error message into a class usable in a signature key.
+func errClass(err error) string {
+	s := err.Error()
+	s = uuidRe.ReplaceAllString(s, "U")
+	s = quotedRe.ReplaceAllString(s, "Q")
+	s = digitsRe.ReplaceAllString(s, "N")
+	s = strings.Map(func(r rune) rune {
+		switch {
+		case r >= 'a' && r <= 'z', r >= 'A' && r <= 'Z', r == 'N', r == 'U', r == 'Q':
+			return r
+		}
+		return '-'
+	}, s)
+	for strings.Contains(s, "--") {
+		s = strings.ReplaceAll(s, "--", "-")
+	}
+	if len(s) > 110 {
+		s = s[:110]
+	}
+	return strings.Trim(s, "-")
+}
+
+// errTail is the class of the innermost message of a wrapped error
+func errTail(err error) string {
+	s := err.Error()
+	if i := strings.LastIndex(s, ": "); i >= 0 {
+		s = s[i+2:]
+	}
+	return errClass(fmt.Errorf("%s", s))
+}
+
+func panicClass(p string) string {
+	first := strings.SplitN(p, "\n", 2)[0]
+	switch {
+	case strings.Contains(first, "nil pointer"):
+		return "nil-dereference"
+	case strings.Contains(first, "slice bounds"), strings.Contains(first, "index out of range"):
+		return "out-of-bounds"
+	case strings.Contains(first, "interface conversion"):
+		return "type-assertion"
+	case strings.Contains(first, "nil map"):
+		return "nil-map"
+	}
+	return "other-" + errClass(fmt.Errorf("%s", first))
+}
+
+type exitEdge struct{ UUID, Dest string }
+type graphNode struct {
+	UUID  string
+	Exits []exitEdge
+}
+
+func str(v any) string {
+	s, _ := v.(string)
+	return s
+}
+
+// graphOfJSON extracts nodes, exits and destinations from a 13.x definition in generic form.
+func graphOfJSON(def map[string]any) []graphNode {
+	var out []graphNode
+	nodes, _ := def["nodes"].([]any)
+	for _, n := range nodes {
+		nm, _ := n.(map[string]any)
+		g := graphNode{UUID: str(nm["uuid"])}
+		exits, _ := nm["exits"].([]any)
+		for _, e := range exits {
+			em, _ := e.(map[string]any)
+			g.Exits = append(g.Exits, exitEdge{str(em["uuid"]), str(em["destination_uuid"])})
+		}
+		out = append(out, g)
+	}
+	return out
+}
+
+func graphOfFlow(f flows.Flow) []graphNode {
+	var out []graphNode
+	for _, n := range f.Nodes() {
+		g := graphNode{UUID: string(n.UUID())}
+		for _, e := range n.Exits() {
+			g.Exits = append(g.Exits, exitEdge{string(e.UUID()), string(e.DestinationUUID())})
+		}
+		out = append(out, g)
+	}
+	return out
+}
+
+func sameGraph(a, b []graphNode) bool { return mc.JSON(a) == mc.JSON(b) }
+
+// allStrings collects every string value of a generic JSON document
+func allStrings(v any, out *[]string) {
+	switch t := v.(type) {
+	case string:
+		*out = append(*out, t)
+	case map[string]any:
+		for _, k := range sortedKeys(t) {
+			allStrings(t[k], out)
+		}
+	case []any:
+		for _, x := range t {
+			allStrings(x, out)
+		}
+	}
+}
+
+// ---- template evaluation ---------------------------------------------------------------------
+
+var env = envs.NewBuilder().Build()
+var evaluator = excellent.NewEvaluator()
+
+const webhookBody = `{"foo": "bar", "n": 5, "list": ["a", "b"], "json": {"deep": "x"}, "webhook": "self", "com": "c"}`
+
+func evalContext(webhook types.XValue) *types.XObject {
+	obj := func(m map[string]types.XValue) *types.XObject { return types.NewXObject(m) }
+	return obj(map[string]types.XValue{
+		"webhook": webhook,
+		"contact": obj(map[string]types.XValue{"__default__": types.NewXText("Bob"), "name": types.NewXText("Bob")}),
+		"fields":  obj(map[string]types.XValue{"gender": types.NewXText("M")}),
+		"results": obj(map[string]types.XValue{"webhook": obj(map[string]types.XValue{"__default__": types.NewXText("rv"), "value": types.NewXText("rv")})}),
+		"input":   obj(map[string]types.XValue{"__default__": types.NewXText("hi"), "text": types.NewXText("hi")}),
+		"child":   obj(map[string]types.XValue{"status": types.NewXText("completed")}),
+		"resume":  obj(map[string]types.XValue{}),
+	})
+}
+
+// before 13.3 @webhook was the parsed JSON body of the last webhook response; from 13.3 it is an
+// object whose json property is that body.
+var ctxOld = evalContext(types.JSONToXValue([]byte(webhookBody)))
+var ctxNew = evalContext(types.NewXObject(map[string]types.XValue{
+	"__default__": types.NewXText("GET http://x.test/"),
+	"status":      types.NewXNumberFromInt(200),
+	"headers":     types.NewXObject(map[string]types.XValue{}),
+	"json":        types.JSONToXValue([]byte(webhookBody)),
+}))
+
+func evalTemplate(ctx *types.XObject, t string) string {
+	var out string
+	var err error
+	if p := mc.Guard(func() { out, _, err = evaluator.Template(env, ctx, t, nil) }); p != "" {
+		return "PANIC " + strings.SplitN(p, "\n", 2)[0]
+	}
+	if err != nil {
+		return out + " [with errors]"
+	}
+	return out
+}
+
+func flowTemplates(f flows.Flow) []string {
+	var out []string
+	for _, n := range f.Nodes() {
+		n.EnumerateTemplates(f.Localization(), func(a flows.Action, r flows.Router, l i18n.Language, t string) {
+			out = append(out, t)
+		})
+	}
+	return out
+}
+
+// ---- the oracle for valid sources -----------------------------------------------------------------
+
+var cfg = migrations.DefaultConfig
+
+func migrateTo(data []byte, to string) (out []byte, err error, panicked string) {
+	world.Reset()
+	panicked = mc.Guard(func() {
+		if to == "" {
+			out, err = migrations.MigrateToLatest(data, cfg)
+		} else {
+			out, err = migrations.MigrateToVersion(data, semver.MustParse(to), cfg)
+		}
+	})
+	return
+}
+
+func readFlow(data []byte) (f flows.Flow, err error, panicked string) {
+	world.Reset()
+	panicked = mc.Guard(func() { f, err = definition.ReadFlow(data, nil) })
+	return
+}
+
+// stable: reading a current definition and marshalling it back gives JSON that reads back equal
+func checkStable(f flows.Flow) *problem {
+	m1, err := json.Marshal(f)
+	if err != nil {
+		return &problem{"marshal-error:" + errClass(err), "a loaded flow cannot be marshalled: " + err.Error()}
+	}
+	f2, err, p := readFlow(m1)
+	if p != "" {
+		return &problem{"panic:" + mc.PanicSite(p) + ":" + panicClass(p) + ":rereading-marshalled-flow", "reading back a marshalled flow panics\n" + p + "\n" + string(m1)}
+	}
+	if err != nil {
+		return &problem{"marshalled-flow-does-not-load:" + errClass(err), "a loaded flow was marshalled to JSON that does not load: " + err.Error() + "\n" + string(m1)}
+	}
+	m2, _ := json.Marshal(f2)
+	if !bytes.Equal(m1, m2) {
+		return &problem{"marshal-not-stable", "read -> marshal -> read -> marshal differs\nfirst:  " + string(m1) + "\nsecond: " + string(m2)}
+	}
+	return nil
+}
+
+type stats struct {
+	migrations int
+	facts      map[string]bool
+}
+
+func (s *stats) fact(f string) {
+	if s.facts == nil {
+		s.facts = map[string]bool{}
+	}
+	s.facts[f] = true
+}
+
+// checkCurrentOutput applies the clauses about a definition at the current version that came out of
+// a migration of src (13.x).
+func checkCurrent13(s *source, srcDef map[string]any, out []byte, route string, st *stats) []problem {
+	var ps []problem
+	add := func(key, what string) {
+		ps = append(ps, problem{key, fmt.Sprintf("%s [%s %s -> %s, %s]\n%s", what, s.Family, s.Version, currentVersion, route, s.Desc)})
+	}
+	f, err, p := readFlow(out)
+	if p != "" {
+		add("panic:"+mc.PanicSite(p)+":"+panicClass(p)+":loading-migrated-definition", "loading the migrated definition panics\n"+p)
+		return ps
+	}
+	if err != nil {
+		add("migrated-definition-does-not-load:"+loadClass(s)+":"+errTail(err), "the migrated definition does not load: "+err.Error()+"\nmigrated: "+string(out))
+		return ps
+	}
+	if string(f.UUID()) != str(srcDef["uuid"]) {
+		add("flow-uuid-changed", fmt.Sprintf("flow UUID %s became %s", srcDef["uuid"], f.UUID()))
+	}
+	if !sameGraph(graphOfJSON(srcDef), graphOfFlow(f)) {
+		add("graph-changed:13.x", fmt.Sprintf("nodes / exits / destinations differ\nsource:   %s\nmigrated: %s", mc.JSON(graphOfJSON(srcDef)), mc.JSON(graphOfFlow(f))))
+	}
+	if s.ExpectLanguage != "" && string(f.Language()) != s.ExpectLanguage {
+		add("language-wrong", fmt.Sprintf("flow language %q became %q, expected %q", srcDef["language"], f.Language(), s.ExpectLanguage))
+	}
+	// every template placed in the source is found again and evaluates to the same
+	if len(s.Templates) > 0 {
+		var srcStrings []string
+		allStrings(srcDef, &srcStrings)
+		migrated := flowTemplates(f)
+		ctxBefore := ctxNew
+		if versionIndex(s.Version) < versionIndex("13.3.0") {
+			ctxBefore = ctxOld
+		}
+		for _, tag := range sortedKeys(s.Templates) {
+			var before string
+			for _, x := range srcStrings {
+				if strings.Contains(x, tag) {
+					before = x
+				}
+			}
+			var after []string
+			for _, x := range migrated {
+				if strings.Contains(x, tag) {
+					after = append(after, x)
+				}
+			}
+			name := templateName(s.Templates[tag])
+			if before == "" {
+				add("harness:tagged-template-not-in-source", tag)
+				continue
+			}
+			if len(after) == 0 {
+				add("template-lost:"+positionClass(s), fmt.Sprintf("the template %q of the source is not among the templates of the migrated flow", before))
+				continue
+			}
+			vb := evalTemplate(ctxBefore, before)
+			for _, a := range after {
+				if a != before {
+					st.fact("template_rewritten")
+				}
+				va := evalTemplate(ctxNew, a)
+				if va != vb {
+					add("template-value-changed:"+name, fmt.Sprintf("template %q evaluated to %q (with @webhook bound as at %s)\nmigrated to %q which evaluates to %q", before, vb, s.Version, a, va))
+				} else if strings.Contains(vb, "bar") {
+					st.fact("template_value_from_webhook_preserved")
+				}
+			}
+		}
+	}
+	if pr := checkStable(f); pr != nil {
+		add(pr.Key, pr.What)
+	}
+	return ps
+}
+
+// loadClass names what kind of source failed to load after migration: for the names family the
+// member that carries the name (the result_name of any action but set_run_result is one class)
+func loadClass(s *source) string {
+	if s.Family != "names" {
+		return positionClass(s)
+	}
+	d := strings.SplitN(s.Desc, " ", 2)
+	member, form := d[0], ""
+	if len(d) > 1 {
+		form = d[1]
+	}
+	if strings.HasSuffix(member, ".result_name") && !strings.HasPrefix(member, "switch.") && !strings.HasPrefix(member, "random.") {
+		member = "action.result_name"
+	}
+	if strings.Contains(form, "all-space") {
+		return "names:" + member + ":all-space"
+	}
+	return "names:" + member
+}
+
+func positionClass(s *source) string {
+	d := s.Desc
+	if i := strings.Index(d, " <- "); i >= 0 {
+		d = d[:i]
+	}
+	if i := strings.Index(d, " ("); i >= 0 {
+		d = d[:i]
+	}
+	return s.Family + ":" + strings.ReplaceAll(d, " ", "-")
+}
+
+func templateName(t string) string {
+	for _, wt := range webhookTemplates {
+		if strings.HasSuffix(t, " "+wt) {
+			return errClass(fmt.Errorf("%s", strings.ReplaceAll(wt, `"`, "'")))
+		}
+	}
+	return "other"
+}
+
+func check13(s *source, st *stats) []problem {
+	var ps []problem
+	add := func(key, what string) {
+		ps = append(ps, problem{key, fmt.Sprintf("%s [%s %s]\n%s", what, s.Family, s.Version, s.Desc)})
+	}
+	data := mustJSON(s.Def)
+	vi := versionIndex(s.Version)
+	// a target at or below the source version: untouched
+	for ti := 0; ti <= vi; ti++ {
+		out, err, p := migrateTo(data, allVersions[ti])
+		st.migrations++
+		if p != "" || err != nil || !bytes.Equal(out, data) {
+			add("not-untouched:target-at-or-below-source", fmt.Sprintf("MigrateToVersion(%s) of a %s definition: err=%v panic=%s changed=%v", allVersions[ti], s.Version, err, p, !bytes.Equal(out, data)))
+		}
+	}
+	if s.Version == currentVersion {
+		// a current definition comes back byte-identical, however it is formatted
+		var pretty bytes.Buffer
+		json.Indent(&pretty, data, " ", "\t")
+		for _, form := range [][]byte{data, pretty.Bytes(), append([]byte("  "), append(data, '\n')...)} {
+			out, err, p := migrateTo(form, "")
+			st.migrations++
+			if p != "" || err != nil || !bytes.Equal(out, form) {
+				add("not-untouched:current-definition", fmt.Sprintf("MigrateToLatest of a current definition: err=%v panic=%s changed=%v", err, p, !bytes.Equal(out, form)))
+			}
+		}
+		if f, err, p := readFlow(data); p != "" || err != nil {
+			add("harness:current-source-does-not-load", fmt.Sprintf("%v %s", err, p))
+		} else if pr := checkStable(f); pr != nil {
+			add(pr.Key, pr.What)
+		}
+		return ps
+	}
+	// every newer target, in one go
+	for ti := vi + 1; ti < len(allVersions); ti++ {
+		to := allVersions[ti]
+		out, err, p := migrateTo(data, to)
+		st.migrations++
+		if p != "" {
+			add("panic:"+mc.PanicSite(p)+":"+panicClass(p)+":migrating-valid-13.x", fmt.Sprintf("migrating to %s panics\n%s", to, p))
+			continue
+		}
+		if err != nil {
+			add("valid-13.x-rejected:"+positionClass(s)+":"+errTail(err), fmt.Sprintf("migrating to %s fails: %v", to, err))
+			continue
+		}
+		var outDef map[string]any
+		if err := json.Unmarshal(out, &outDef); err != nil {
+			add("migrated-not-json", err.Error())
+			continue
+		}
+		if str(outDef["spec_version"]) != to {
+			add("spec-version-not-stamped", fmt.Sprintf("migrating to %s gives spec_version %v", to, outDef["spec_version"]))
+		}
+		if str(outDef["uuid"]) != str(s.Def["uuid"]) {
+			add("flow-uuid-changed", fmt.Sprintf("flow UUID %v became %v migrating to %s", s.Def["uuid"], outDef["uuid"], to))
+		}
+		if !sameGraph(graphOfJSON(s.Def), graphOfJSON(outDef)) {
+			add("graph-changed:13.x", fmt.Sprintf("migrating to %s: nodes / exits / destinations differ\nsource:   %s\nmigrated: %s", to, mc.JSON(graphOfJSON(s.Def)), mc.JSON(graphOfJSON(outDef))))
+		}
+		// migrating again changes nothing
+		again, err, p := migrateTo(out, to)
+		st.migrations++
+		if p != "" || err != nil || !bytes.Equal(again, out) {
+			add("not-idempotent", fmt.Sprintf("migrating the %s result to %s again: err=%v panic=%s changed=%v", to, to, err, p, !bytes.Equal(again, out)))
+		}
+		if to == currentVersion {
+			ps = append(ps, checkCurrent13(s, s.Def, out, "in one go", st)...)
+			latest, err, p := migrateTo(data, "")
+			st.migrations++
+			if p != "" || err != nil || !bytes.Equal(latest, out) {
+				add("latest-differs-from-current-version", fmt.Sprintf("MigrateToLatest and MigrateToVersion(%s) differ: err=%v panic=%s", currentVersion, err, p))
+			}
+		}
+	}
+	// stepwise: one version at a time
+	step := data
+	okSteps := true
+	for ti := vi + 1; ti < len(allVersions) && okSteps; ti++ {
+		out, err, p := migrateTo(step, allVersions[ti])
+		st.migrations++
+		if p != "" || err != nil {
+			add("stepwise-migration-fails:"+allVersions[ti], fmt.Sprintf("err=%v panic=%s", err, p))
+			okSteps = false
+			break
+		}
+		step = out
+	}
+	if okSteps {
+		ps = append(ps, checkCurrent13(s, s.Def, step, "stepwise", st)...)
+	}
+	return ps
+}
+
+// ---- legacy sources --------------------------------------------------------------------------
+
+func checkLegacy(s *source, st *stats) []problem {
+	var ps []problem
+	add := func(key, what string) {
+		ps = append(ps, problem{key, fmt.Sprintf("%s [%s]\n%s", what, s.Family, s.Desc)})
+	}
+	data := mustJSON(s.Def)
+	for _, to := range []string{"13.0.0", "13.3.0", ""} {
+		out, err, p := migrateTo(data, to)
+		st.migrations++
+		if p != "" {
+			add("panic:"+mc.PanicSite(p)+":"+panicClass(p)+":migrating-valid-legacy", fmt.Sprintf("migrating to %q panics\n%s", to, p))
+			return ps
+		}
+		if err != nil {
+			add("valid-legacy-rejected:"+legacyClass(s)+":"+errTail(err), fmt.Sprintf("migrating to %q fails: %v", to, err))
+			return ps
+		}
+		again, err, p := migrateTo(out, to)
+		st.migrations++
+		if p != "" || err != nil || !bytes.Equal(again, out) {
+			add("not-idempotent", fmt.Sprintf("migrating the result again (target %q): err=%v panic=%s changed=%v", to, err, p, !bytes.Equal(again, out)))
+		}
+		if to != "" {
+			continue
+		}
+		f, err, p := readFlow(out)
+		if p != "" {
+			add("panic:"+mc.PanicSite(p)+":"+panicClass(p)+":loading-migrated-definition", p)
+			return ps
+		}
+		if err != nil {
+			add("migrated-definition-does-not-load:"+legacyClass(s)+":"+errTail(err), "the migrated definition does not load: "+err.Error()+"\nmigrated: "+string(out))
+			return ps
+		}
+		ps = append(ps, legacyGraphProblems(s, f)...)
+		if pr := checkStable(f); pr != nil {
+			add(pr.Key, pr.What)
+		}
+	}
+	return ps
+}
+
+func legacyClass(s *source) string {
+	d := s.Desc
+	if i := strings.Index(d, " "); i >= 0 {
+		d = d[:i]
+	}
+	if s.Family == "legacy-graph" {
+		return s.Family
+	}
+	return s.Family + ":" + d
+}
+
+func legacyGraphProblems(s *source, f flows.Flow) []problem {
+	var ps []problem
+	add := func(key, what string) {
+		ps = append(ps, problem{key, fmt.Sprintf("%s [%s]\n%s", what, s.Family, s.Desc)})
+	}
+	def := s.Def
+	meta, _ := def["metadata"].(map[string]any)
+	want := str(meta["uuid"])
+	if want == "" {
+		want = str(def["uuid"])
+	}
+	if want != "" && string(f.UUID()) != want {
+		add("flow-uuid-changed", fmt.Sprintf("flow UUID %s became %s", want, f.UUID()))
+	}
+	base := str(def["base_language"])
+	valid := map[string]bool{}
+	var order []string
+	for _, key := range []string{"action_sets", "rule_sets"} {
+		xs, _ := def[key].([]any)
+		for _, x := range xs {
+			u := str(x.(map[string]any)["uuid"])
+			valid[u] = true
+			order = append(order, u)
+		}
+	}
+	got := map[string]flows.Node{}
+	for _, n := range f.Nodes() {
+		got[string(n.UUID())] = n
+	}
+	if len(got) != len(valid) || len(f.Nodes()) != len(valid) {
+		add("legacy:node-set-changed", fmt.Sprintf("%d legacy nodes became %d nodes", len(valid), len(f.Nodes())))
+		return ps
+	}
+	for u := range valid {
+		if got[u] == nil {
+			add("legacy:node-set-changed", "legacy node "+u+" is not a node of the migrated flow")
+			return ps
+		}
+	}
+	if entry := str(def["entry"]); entry != "" && valid[entry] && string(f.Nodes()[0].UUID()) != entry {
+		add("legacy:entry-not-first", fmt.Sprintf("entry %s, first migrated node %s", entry, f.Nodes()[0].UUID()))
+	}
+	as, _ := def["action_sets"].([]any)
+	for _, x := range as {
+		a := x.(map[string]any)
+		n := got[str(a["uuid"])]
+		dest := str(a["destination"])
+		if !valid[dest] {
+			dest = ""
+		}
+		if len(n.Exits()) != 1 || string(n.Exits()[0].UUID()) != str(a["exit_uuid"]) || string(n.Exits()[0].DestinationUUID()) != dest {
+			add("legacy:action-set-connection-changed", fmt.Sprintf("action set %s -> %q (exit %s) became exits %s", a["uuid"], dest, a["exit_uuid"], mc.JSON(graphOfFlow(f))))
+		}
+	}
+	rs, _ := def["rule_sets"].([]any)
+	for _, x := range rs {
+		r := x.(map[string]any)
+		n := got[str(r["uuid"])]
+		if n.Router() == nil {
+			add("legacy:rule-set-without-router", str(r["uuid"]))
+			continue
+		}
+		exitDest := map[string]string{}
+		for _, e := range n.Exits() {
+			exitDest[string(e.UUID())] = string(e.DestinationUUID())
+		}
+		rules, _ := r["rules"].([]any)
+		for _, y := range rules {
+			rule := y.(map[string]any)
+			cat, _ := rule["category"].(map[string]any)
+			name := str(cat[base])
+			if _, ok := cat[base]; !ok {
+				name = str(cat["base"])
+			}
+			dest := str(rule["destination"])
+			if !valid[dest] {
+				dest = ""
+			}
+			found := false
+			for _, c := range n.Router().Categories() {
+				if c.Name() == name {
+					if d, ok := exitDest[string(c.ExitUUID())]; ok && d == dest {
+						found = true
+					}
+				}
+			}
+			if !found {
+				add("legacy:rule-destination-not-reachable-through-its-category", fmt.Sprintf("rule %s (category %q) -> %q: no category of that name leads there\nmigrated node: %s", rule["uuid"], name, dest, mc.JSON(n)))
+			}
+		}
+	}
+	return ps
+}
+
+// ---- run -----------------------------------------------------------------------------------------
+
+type replay struct {
+	Kind   string  `json:"kind"` // source | fault
+	Source *source `json:"source,omitempty"`
+	Data   string  `json:"data,omitempty"`
+	Fault  string  `json:"fault,omitempty"`
+}
+
+func checkSource(s *source, st *stats) []problem {
+	if s.Version == "legacy" {
+		return checkLegacy(s, st)
+	}
+	return check13(s, st)
+}
+
+func sourcesOf(tier string, emit func(*source)) {
+	familyWebhookPositions(emit)
+	familyTypes(emit)
+	familyLanguage(emit)
+	familyNames(emit)
+	familyCurrent(emit)
+	familyLegacy(emit)
+	if tier == "quick" {
+		familyGraphs(2, []string{"A", "N", "W", "WT", "S", "R", "Es", "Eot"}, emit)
+		familyLegacyGraphs(3, emit)
+	} else {
+		familyGraphs(2, []string{"A", "AR", "N", "W", "WT", "S", "R", "Es", "Est", "Eo", "Eot", "Em"}, emit)
+		familyGraphs(3, []string{"A", "W", "R", "Es"}, emit)
+		familyLegacyGraphs(4, emit)
+	}
+}
+
+func run(c *mc.Ctx) {
+	idx := 0
+	st := &stats{}
+	sourcesOf(c.Tier, func(s *source) {
+		idx++
+		if !c.Mine(idx) {
+			return
+		}
+		if c.Expired() {
+			c.Cap("time budget reached while checking valid sources")
+			return
+		}
+		before := st.migrations
+		ps := checkSource(s, st)
+		c.Inc("evaluations")
+		c.Inc("valid_sources")
+		c.Inc("valid_sources:" + s.Family)
+		c.Inc("valid_sources_at:" + s.Version)
+		c.Add("source_x_target_migrations", int64(st.migrations-before))
+		c.Inc("distinct_nontrivial")
+		if len(ps) == 0 {
+			c.Outcome("valid-source:holds:" + s.Family)
+			if c.WantSample() && s.Family == "template-position" && strings.Contains(s.Desc, "headers") {
+				c.Sample(map[string]any{"family": s.Family, "version": s.Version, "desc": s.Desc})
+			}
+		}
+		for _, p := range ps {
+			c.Outcome("valid-source:violates")
+			c.Violation(p.Key, p.What, replay{Kind: "source", Source: s})
+		}
+	})
+	for f := range st.facts {
+		c.Fact(f)
+	}
+	runFaults(c, &idx)
+}
+
+func replayFn(c *mc.Ctx, raw json.RawMessage) (string, bool) {
+	var rp replay
+	if err := json.Unmarshal(raw, &rp); err != nil {
+		return "bad replay: " + err.Error(), false
+	}
+	switch rp.Kind {
+	case "source":
+		// the definition went through JSON: numbers are float64 now, which marshals the same
+		ps := checkSource(rp.Source, &stats{})
+		var sb strings.Builder
+		fmt.Fprintf(&sb, "source [%s %s] %s\n%s\n", rp.Source.Family, rp.Source.Version, rp.Source.Desc, mustJSON(rp.Source.Def))
+		for _, p := range ps {
+			fmt.Fprintf(&sb, "PROBLEM %s\n%s\n", p.Key, p.What)
+		}
+		return sb.String(), len(ps) > 0
+	case "fault":
+		p := checkFault([]byte(rp.Data), rp.Fault, nil)
+		if p == nil {
+			return "input is handled without a panic: " + rp.Data, false
+		}
+		return p.Key + "\n" + p.What, true
+	}
+	return "unknown replay kind", false
+}
+
+func guards(r *mc.Result, tier string) []string {
+	var f []string
+	need := func(cond bool, msg string) {
+		if !cond {
+			f = append(f, msg)
+		}
+	}
+	for _, fam := range []string{"template-position", "types", "language", "names", "graph", "current", "legacy-ruleset", "legacy-action", "legacy-header", "legacy-graph"} {
+		need(r.Counters["valid_sources:"+fam] > 0, "no valid sources of family "+fam)
+	}
+	for _, v := range append(append([]string{}, allVersions...), "legacy") {
+		need(r.Counters["valid_sources_at:"+v] > 0, "no valid sources at "+v)
+	}
+	need(r.Counters["valid_sources"] >= 10000, "fewer than 10000 valid sources")
+	need(r.Counters["source_x_target_migrations"] >= 5*r.Counters["valid_sources"], "fewer than 5 migrations per source on average")
+	need(r.Facts["template_rewritten"] > 0, "no template was ever rewritten")
+	need(r.Facts["template_value_from_webhook_preserved"] > 0, "no template drew its value from @webhook")
+	need(r.Counters["faults_single"] >= 20000, "fewer than 20000 single JSON faults")
+	need(r.Counters["faults_truncation"] >= 10000, "fewer than 10000 truncations")
+	need(r.Counters["fault_outcome:rejected"] > 0 && r.Counters["fault_outcome:accepted"] > 0, "faults were not both accepted and rejected")
+	need(r.Counters["fault_reached_legacy_migration"] > 0, "no fault reached the legacy migration")
+	if tier == "thorough" {
+		need(r.Counters["faults_pair"] >= 100000, "fewer than 100000 fault pairs")
+	}
+	need(len(r.Outcomes) >= 5, "fewer than 5 outcome classes")
+	return f
+}
+
+func init() {
+	mc.Register(&mc.Check{
+		ID:    "C16",
+		Level: "exploration",
+		Rule: "(i) bounded exhaustive enumeration of valid old definitions, each migrated by the real MigrateToVersion / MigrateToLatest to every newer version in one go and stepwise, loaded by the real ReadFlow and compared with the source: " +
+			"every template position of every action and router type x 30 @webhook templates (none rebinding webhook as a lambda parameter) x translations x templating shapes, every action / router / wait / hint type, flow languages x localisation keys, result and category names around the 64 / 36 limits (ASCII, multi-byte, all-space), " +
+			"all canonical flow graphs of <= 2 (thorough: 3) nodes over the structural node alphabet, each at each of 13.0 ... 13.5, definitions already current (three formattings); legacy definitions: every ruleset_type (subflow, webhook, resthook, form_field, flow_field, contact_field, expression, group, random, airtime incl. two countries sharing currency and amount, every wait_*), every rule test type, every action type, rules of one category sharing a destination, " +
+			"entry listed after other nodes, header forms, and all canonical legacy graphs of <= 3 (thorough: 4) nodes x every entry x layout. " +
+			"(ii) fault enumeration on definition JSON: for each seed (every legacy rule set and action source, one rich definition per 13.x version) every JSON path x every replacement from a fixed list (delete, null, true, 0, -1, 1.5, \"\", \"x\", \"@(\", [], {}, [null], {\"uuid\":1}, [[]], duplicate of the previous UUID, every other value of the member's type enumeration), every byte-prefix truncation raw and with the open brackets closed, and (thorough) all pairs of faults on the legacy seeds. " +
+			"A case is distinct by its bytes; distinct_nontrivial counts valid sources plus faulted inputs that are well-formed JSON.",
+		Assumptions: []string{
+			"validity at an old version is taken from the shapes the repository's own migration test data and template catalogs (specdata/templates.json) show for that version; result names use the character set the current validator accepts (the statement speaks of over-long names only)",
+			"a legacy airtime rule set with different amounts in one currency is rejected on purpose (not representable) and is not in the valid space",
+			"template values are compared in one fixed context (@webhook bound to a JSON body before 13.3, to an object with that body as .json from 13.3)",
+			"faults: all single deviations from the seeds (pairs in thorough), not all byte strings",
+		},
+		Run:    run,
+		Replay: replayFn,
+		Guards: guards,
+		Budget: map[string]time.Duration{"quick": 4 * time.Minute, "thorough": 20 * time.Minute},
+	})
+}
+
+var _ = sort.Strings
